@@ -179,20 +179,20 @@ pub struct ExecResult {
 }
 
 /// reference model + per-execution driver state
-struct Run<'a> {
+pub(crate) struct Run<'a> {
     cfg: &'a Cfg,
-    subj: Option<Box<dyn Subject>>,
+    pub(crate) subj: Option<Box<dyn Subject>>,
     cur_waker: usize,
     /// ids accepted and not yet yielded, in queue order (ordered kinds) or any order
     model: VecDeque<u32>,
     /// adapter: futures pulled from upstream and not yet yielded, in upstream order
-    pool: Vec<Waker>,
+    pub(crate) pool: Vec<Waker>,
     first_ready_seen: bool,
     polls_after_ready: usize,
     rendered: Vec<String>,
     ops_applied: u64,
     epilogue_steps: u64,
-    last_out_kind: u8,
+    pub(crate) last_out_kind: u8,
     hints: Vec<(usize, (usize, Option<usize>), &'static str)>,
     yielded_count: usize,
     merge_next_seq: Vec<(u32, u32)>,
@@ -355,7 +355,7 @@ impl<'a> Run<'a> {
         live
     }
 
-    fn new_child(&self, spec: &ChildSpec) -> u32 {
+    pub(crate) fn new_child(&self, spec: &ChildSpec) -> u32 {
         w(|w| {
             let tgt = self.relay_target(w);
             let id = w.new_child(spec.mode);
@@ -369,7 +369,7 @@ impl<'a> Run<'a> {
     }
 
     // ---------------------------------------------------------------------------------------------
-    fn apply(&mut self, op: &Op) {
+    pub(crate) fn apply(&mut self, op: &Op) {
         self.ops_applied += 1;
         let r = self.render_op(op);
         w(|w| w.logf(|| format!("op {}", r)));
@@ -468,7 +468,7 @@ impl<'a> Run<'a> {
         self.post_op();
     }
 
-    fn drop_subject(&mut self) {
+    pub(crate) fn drop_subject(&mut self) {
         if let Some(s) = self.subj.take() {
             w(|w| w.call_id += 1);
             in_crate(|| drop(s));
@@ -476,7 +476,7 @@ impl<'a> Run<'a> {
         }
     }
 
-    fn do_push(&mut self, i: usize, how: PushHow, panicking: bool) {
+    pub(crate) fn do_push(&mut self, i: usize, how: PushHow, panicking: bool) {
         let cfg = self.cfg;
         let spec = &cfg.specs[i];
         let id = self.new_child(spec);
@@ -530,7 +530,7 @@ impl<'a> Run<'a> {
         }
     }
 
-    fn do_poll(&mut self, new: bool) {
+    pub(crate) fn do_poll(&mut self, new: bool) {
         if new {
             self.cur_waker = w(|w| {
                 w.next_task_waker += 1;
@@ -585,8 +585,9 @@ impl<'a> Run<'a> {
                 .iter()
                 .enumerate()
                 .filter(|(_, c)| c.accepted && c.drops == 0 && !c.completed)
-                .filter_map(|(i, c)| c.victim_wake_cpoll.map(|c0| (i, cp - c0)))
-                .find(|(_, waited)| *waited > 4 * held + 8);
+                .filter_map(|(i, c)| c.victim_wake_cpoll.map(|(c0, h0)| (i, cp - c0, h0.max(held))))
+                .find(|(_, waited, h)| *waited > 4 * h + 8)
+                .map(|(i, waited, _)| (i, waited));
             if let Some((i, waited)) = starving {
                 w.violate(
                     "C13",
@@ -846,7 +847,7 @@ impl<'a> Run<'a> {
     }
 
     // ---------------------------------------------------------------------------------------------
-    fn post_op(&mut self) {
+    pub(crate) fn post_op(&mut self) {
         let cfg = self.cfg;
         // C01: no lost wake-up
         w(|w| {
@@ -1167,7 +1168,7 @@ impl<'a> Run<'a> {
         }
     }
 
-    fn teardown(&mut self) {
+    pub(crate) fn teardown(&mut self) {
         self.drop_subject();
         let pool = std::mem::take(&mut self.pool);
         EXTRA_WAKERS.with(|e| e.borrow_mut().clear());
@@ -1354,7 +1355,7 @@ pub fn run(cfg: &Cfg, prefix: &[u8], log_on: bool) -> ExecResult {
     r
 }
 
-fn run_inner(cfg: &Cfg, prefix: &[u8], log_on: bool) -> ExecResult {
+pub(crate) fn begin<'a>(cfg: &'a Cfg, prefix: &[u8], log_on: bool) -> Run<'a> {
     reset_world(prefix, cfg.horizon, log_on);
     w(|w| {
         w.up.remaining = cfg.up_len;
@@ -1363,7 +1364,7 @@ fn run_inner(cfg: &Cfg, prefix: &[u8], log_on: bool) -> ExecResult {
         w.up.modes = cfg.up_modes;
         w.dormant = cfg.dormant;
     });
-    let mut run = Run {
+    Run {
         cfg,
         subj: None,
         cur_waker: 1,
@@ -1384,10 +1385,14 @@ fn run_inner(cfg: &Cfg, prefix: &[u8], log_on: bool) -> ExecResult {
         done_seen: false,
         top_ops: 0,
         quiesce_run: false,
-    };
-    let body = std::panic::catch_unwind(std::panic::AssertUnwindSafe(|| {
-        // construction
-        let pre: Vec<u32> = cfg.prefill.iter().map(|s| run.new_child(s)).collect();
+    }
+}
+
+impl<'a> Run<'a> {
+    /// build the subject with its prefilled children; false if the constructor panicked
+    pub(crate) fn construct(&mut self) -> bool {
+        let cfg = self.cfg;
+        let pre: Vec<u32> = cfg.prefill.iter().map(|s| self.new_child(s)).collect();
         let by_ctor = matches!(
             cfg.kind,
             Kind::FubIter(_) | Kind::FuIter(_) | Kind::FobIter(_) | Kind::FoIter(_) | Kind::Mb(_) | Kind::Mu(_) | Kind::Ja(_) | Kind::Tja(_)
@@ -1396,28 +1401,38 @@ fn run_inner(cfg: &Cfg, prefix: &[u8], log_on: bool) -> ExecResult {
         match subj {
             None => {
                 w(|w| w.violate("C15", "constructor-panicked", format!("constructing {:?} panicked", cfg.kind)));
-                return;
+                return false;
             }
-            Some(s) => run.subj = Some(s),
+            Some(s) => self.subj = Some(s),
         }
         if let Some(s) = cfg.seed {
-            run.subj.as_mut().unwrap().seed(s);
+            self.subj.as_mut().unwrap().seed(s);
         }
         if by_ctor {
             for &id in &pre {
                 w(|w| w.accept(id));
-                run.model.push_back(id);
+                self.model.push_back(id);
             }
         } else {
             for &id in &pre {
-                let r = run.subj.as_mut().unwrap().push(id, PushHow::Back, false);
+                let r = self.subj.as_mut().unwrap().push(id, PushHow::Back, false);
                 assert!(r == PushRes::Accepted, "prefill push refused");
                 w(|w| w.accept(id));
-                run.model.push_back(id);
+                self.model.push_back(id);
             }
         }
         if !matches!(cfg.kind, Kind::Mu(_) | Kind::FuNew | Kind::FuCap(_) | Kind::FuIter(_) | Kind::FoNew | Kind::FoCap(_) | Kind::FoIter(_)) {
             reset_crate_allocs();
+        }
+        true
+    }
+}
+
+fn run_inner(cfg: &Cfg, prefix: &[u8], log_on: bool) -> ExecResult {
+    let mut run = begin(cfg, prefix, log_on);
+    let body = std::panic::catch_unwind(std::panic::AssertUnwindSafe(|| {
+        if !run.construct() {
+            return;
         }
         run.post_op();
         // history
